@@ -19,28 +19,31 @@ theorem C08_step_by_step (w : World) (s : St) (d : Doc) (hp : w.parse d = .ok ()
     let s1 := (step w s (.newFromAST d)).1
     (step w s1 (.renderTree s.trees.length)).2 = .ok (w.html d (w.attrs d) (w.attrs d) []) := new_then_render w s d hp hr
 
-/-- `…_partial`: a component tree rendered later is right whenever the store still holds its own document's attributes and
-    the tree's components carry nothing over from its earlier renderings (`hstateless`: false when an earlier rendering happened
-    under another document's store — values resolved then are memoised in the component structs) -/
-theorem C08_tree_partial (w : World) (s : St) (k : Nat) (d : Doc) (seen : List G) (hk : s.trees[k]? = some (d, w.attrs d, seen))
-    (hg : s.g = some (w.attrs d)) (hstateless : w.html d (w.attrs d) (w.attrs d) seen = w.html d (w.attrs d) (w.attrs d) [])
-    (hr : w.renderErr d = none) :
-    (step w s (.renderTree k)).2 = .ok (w.html d (w.attrs d) (w.attrs d) []) :=
-  tree_ok_if_store_own w s k d seen hk hg hstateless hr
+/-- **kept component trees too**: what rendering a tree returns is the same before and after ANY history of other calls
+    (compilations of other documents, other trees built and rendered): the tree reads the attribute store it was built with -/
+theorem C08_tree_history_independent (w : World) (hist : List Call) (s : St) (k : Nat) (hk : k < s.trees.length)
+    (hc : ∀ c ∈ hist, c ≠ .renderTree k) :
+    (step w (run w s hist).1 (.renderTree k)).2 = (step w s (.renderTree k)).2 := tree_history_independent w hist s k hk hc
 
-/-- **the full statement is false of the code** (finding C08-F1): NewFromAST(a); Render(b); RenderComponentString(tree a)
-    renders a's tree with b's tag / mj-all defaults.  Kernel-checked on a concrete world. -/
+/-- … namely the store of its own document -/
+theorem C08_tree_own_store (w : World) (s : St) (k : Nat) (d : Doc) (gb : G) (seen : List G) (hk : s.trees[k]? = some (d, gb, seen))
+    (hr : w.renderErr d = none) :
+    (step w s (.renderTree k)).2 = .ok (w.html d gb gb seen) := tree_own_store w s k d gb seen hk hr
+
+/-- the shape that failed before 72a1ca4 (finding C08-F1, closed): NewFromAST(a); Render(b); RenderComponentString(tree a) now
+    equals NewFromAST(a); RenderComponentString(tree a) -/
 def wEx : World :=
   { parse := fun _ => .ok (), attrs := fun d => d + 1, html := fun d gb gr seen => 100 * d + 10 * gb + gr + (if d = 7 then 1000 * seen.length else 0),
     validation := fun _ => none, renderErr := fun d => if d = 9 then some 1 else none, reorder := id }
-example : (run wEx init [.newFromAST 1, .render 5, .renderTree 0]).2.getLast? ≠ (run wEx init [.newFromAST 1, .renderTree 0]).2.getLast? := by
+example : (run wEx init [.newFromAST 1, .render 5, .renderTree 0]).2.getLast? = (run wEx init [.newFromAST 1, .renderTree 0]).2.getLast? := by
   decide
-/-- a tree whose components accumulate state renders differently the second time (was true of mj-carousel before the fix) -/
+/-- what the model still allows (and the harness watches, `statebits`): a tree whose components accumulate state from one
+    rendering to the next renders differently the second time (was true of mj-carousel before 51989f7) -/
 example : (run wEx init [.newFromAST 7, .renderTree 0, .renderTree 0]).2.getLast? ≠ (run wEx init [.newFromAST 7, .renderTree 0]).2.getLast? := by
   decide
 /-- a compilation that fails while rendering leaves nothing behind for the next one: the same result as in a fresh process -/
 example : (run wEx init [.render 9, .render 1]).2 = [.fail 1, (fresh wEx (.render 1))] := by decide
-/-- non-vacuity of the partial theorem -/
+/-- non-vacuity -/
 example : (run wEx init [.newFromAST 1, .renderTree 0]).2.getLast? = some (.ok (100 + 20 + 2)) := by decide
 
 /-- Regenerated fact: the only process-wide state a compilation can carry from one call to the next is the attribute store
